@@ -39,11 +39,12 @@ type config struct {
 	ow     string // overflow-wrap ("" = not set)
 	wb     string // word-break ("" = not set)
 	pageLines int  // >0: the page is only this many lines high (the paragraph is split across pages)
+	forceWrap bool // the paragraph is nowrap but some inline children wrap: the model gets the glue explicitly
 	hasTop bool    // the model is placed at top (several blocks in one document)
 	top    float64
 }
 
-func (c config) wrap() bool { return c.ws == "normal" || c.ws == "pre-line" || c.ws == "pre-wrap" }
+func (c config) wrap() bool { return c.forceWrap || c.ws == "normal" || c.ws == "pre-line" || c.ws == "pre-wrap" }
 
 func (c config) lineHeight() int {
 	if c.lh == 0 {
@@ -100,10 +101,10 @@ func document(p para, c config) string {
 	if c.pageLines > 0 {
 		// a page only pageLines lines high: the paragraph is fragmented
 		return fmt.Sprintf(`<style>@page{size:6000px %dpx;margin:0}html,body{margin:0;padding:0}`, padY+c.pageLines*c.lineHeight()) +
-			`div{padding:` + fmt.Sprint(padY) + `px 0 0 ` + fmt.Sprint(padX) + `px}p{margin:0;orphans:1;widows:1;` + c.css() + `}</style><div><p>` + p.html() + `</p></div>`
+			`div{padding:` + fmt.Sprint(padY) + `px 0 0 ` + fmt.Sprint(padX) + `px}p{margin:0;orphans:1;widows:1;` + c.css() + `}</style><div><p>` + p.htmlFor(c.ws) + `</p></div>`
 	}
 	return `<style>@page{size:6000px 60000px;margin:0}html,body{margin:0;padding:0}` +
-		`div{padding:` + fmt.Sprint(padY) + `px 0 0 ` + fmt.Sprint(padX) + `px}p{margin:0;` + c.css() + `}</style><div><p>` + p.html() + `</p></div>`
+		`div{padding:` + fmt.Sprint(padY) + `px 0 0 ` + fmt.Sprint(padX) + `px}p{margin:0;` + c.css() + `}</style><div><p>` + p.htmlFor(c.ws) + `</p></div>`
 }
 
 type leaf struct {
@@ -483,7 +484,7 @@ func (rn *runner) check(p para, c config, seed uint64) error {
 				key = "gotext-space-at-end-of-text-node" // KF11-4
 			} else if e.name == "gotext" && p.endsWithSpace() && jclause == "greedy" && strings.Contains(reason, "wider than the available width") {
 				key = "gotext-overflow-unchecked-before-trailing-space" // KF11-9
-			} else if e.name == "pango" && p.spaceEndsTextNode() && jclause == "greedy" && strings.Contains(reason, "wider than the available width") {
+			} else if e.name == "pango" && p.spaceEndsTextNode() && jclause == "greedy" && strings.Contains(reason, "wider than the available width") && implLineFits(impl, spec, c) {
 				key = "pango-unfitting-space-at-end-of-text-node" // KF11-7
 			} else if c.align == "justify" && p.endsWithSpace() && len(impl) == len(spec) && jclause != "greedy" && lastLineOnly(impl, spec) {
 				key = "justified-last-line-trailing-space" // KF11-8
@@ -521,7 +522,7 @@ func (rn *runner) checkBlocks(ps []para, cs []config, seed uint64) error {
 	b.WriteString(`<style>@page{size:6000px 60000px;margin:0}html,body{margin:0;padding:0}div{padding:` + fmt.Sprint(padY) + `px 0 0 ` + fmt.Sprint(padX) + `px}p{margin:0}</style><div>`)
 	var keys []string
 	for i, p := range ps {
-		b.WriteString(`<p style="` + cs[i].css() + `">` + p.html() + `</p>`)
+		b.WriteString(`<p style="` + cs[i].css() + `">` + p.htmlFor(cs[i].ws) + `</p>`)
 		keys = append(keys, p.key()+" ["+cs[i].String()+"]")
 	}
 	b.WriteString(`</div>`)
@@ -688,10 +689,10 @@ func earlyBreakBeforeDeco(p para, impl, spec []line) bool {
 	return false
 }
 
-// endEdgeAfterDeco: the implementation's first differing line is LONGER than the greedy one; the greedy line
-// ends at a space followed by an emptied inline element, and the implementation's line ends just before the
-// non-zero end edge of an inline box (the edge is what does not fit; the break opportunity at the space lies
-// between two boxes inside the inline box and is not found when its last child is laid out again).
+// endEdgeAfterDeco: the implementation's first differing line is LONGER than the greedy one, and the greedy
+// line ends at a space followed by an emptied inline element INSIDE an inline box: the break opportunity lies
+// between two boxes inside the inline box and is not found when the box is laid out again (end edge that does
+// not fit, or glued content after the box that overflows).  At the top level of the paragraph it is found.
 func endEdgeAfterDeco(p para, impl, spec []line) bool {
 	a, i := 0, 0
 	for i < len(impl) && i < len(spec) && impl[i].cnt == spec[i].cnt {
@@ -701,24 +702,35 @@ func endEdgeAfterDeco(p para, impl, spec []line) bool {
 	if i >= len(impl) || i >= len(spec) || impl[i].cnt <= spec[i].cnt {
 		return false
 	}
-	brk, end := a+spec[i].cnt, a+impl[i].cnt
-	n := 0
-	deco, edge := false, false
+	brk := a + spec[i].cnt
+	n, depth := 0, 0
 	for _, t := range p.toks {
 		if n == brk && t.k == tSpace && strings.Contains(t.html, "<") {
-			deco = true
-		}
-		if n == end && t.k == tClose && t.n > 0 {
-			edge = true
+			return depth >= 1
 		}
 		switch t.k {
+		case tOpen:
+			depth++
+		case tClose:
+			depth--
 		case tWord:
 			n += t.n
 		case tAtom:
 			n++
 		}
 	}
-	return deco && edge
+	return false
+}
+
+// implLineFits: the first line on which the implementation differs from the greedy breaking fits the
+// container by the implementation's own width (it holds more than the greedy line only because a space was
+// dropped, KF11-7) - as opposed to a line that really overflows.
+func implLineFits(impl, spec []line, c config) bool {
+	i := 0
+	for i < len(impl) && i < len(spec) && impl[i].cnt == spec[i].cnt {
+		i++
+	}
+	return i < len(impl) && impl[i].w <= float64(c.width)+eps
 }
 
 // lastLineOnly: the two layouts differ on their last line only
@@ -767,7 +779,7 @@ func randConfig(r *rng.R, full bool) config {
 		c.lh = rng.Pick(r, 0, fs, fs, fs+4, 2*fs, fs-4, fs+5)
 		c.indent = rng.Pick(r, 0, 0, fs, 2*fs, -fs, 7, fs/2)
 		c.align = rng.Pick(r, "left", "right", "center", "justify")
-		c.ws = rng.Pick(r, "normal", "normal", "normal", "nowrap")
+		c.ws = rng.Pick(r, "normal", "normal", "normal", "nowrap", "pre-line", "pre-line")
 	}
 	return c
 }
@@ -885,6 +897,25 @@ func Run(tier string, seed uint64, modelPath, repo string, out *res.Result) erro
 		c.ws = "normal"
 		p := genPara(cr, genOpts{maxLeaves: 7, maxWord: 6, spans: cr.Bool(), maxDepth: 1, collapseDeco: true}, c.fs)
 		out.Hit("stage:collapsed-space-in-inline")
+		if err := rn.sweep(cr, p, c, cseed, 0); err != nil {
+			return err
+		}
+	}
+	// (d) white-space differing between a paragraph and its inline children
+	for target := rn.n + sbudget/3; rn.n < target; {
+		cr := r.Sub()
+		cseed := cr.Seed()
+		c := randConfig(cr, true)
+		if c.align == "justify" {
+			c.align = "right" // (non-breaking spaces are not justification opportunities of the model)
+		}
+		parentNowrap := cr.Bool()
+		c.ws, c.forceWrap = "normal", false
+		if parentNowrap {
+			c.ws, c.forceWrap = "nowrap", true
+		}
+		p := genMixedWS(cr, c.fs, parentNowrap)
+		out.Hit("stage:mixed-white-space")
 		if err := rn.sweep(cr, p, c, cseed, 0); err != nil {
 			return err
 		}
